@@ -44,8 +44,9 @@ def gridded_from_spec(spec):
     data[...] = (1.0 + 0.25 * np.arange(n, dtype='f8')).reshape(data.shape)
     times = []
     d, h = spec['sdate'], float(spec['stime'])
+    dt = float(spec.get('dt', 1.0))
     for t in range(nt):
-        d2, h2 = add_hours(d, h, 1.0)
+        d2, h2 = add_hours(d, h, dt)
         times.append((d, h, d2, h2))
         d, h = d2, h2
     return {'name': spec.get('name', 'AVERAGE'), 'note': spec.get('note', 'stub producer'),
@@ -298,7 +299,7 @@ def met_times(spec):
     d, h = spec['sdate'], float(spec['stime'])
     for t in range(spec['nt']):
         out.append((d, float(int(h) * 100 + int(round((h - int(h)) * 60)))))
-        d, h = add_hours(d, h, 1.0)
+        d, h = add_hours(d, h, float(spec.get('dt', 1.0)))
     return out
 
 
